@@ -64,6 +64,26 @@ CLAIMS = {
              "history independence of the helper.",
         note="Trusted: CPython, z3 (thorough: lemmas re-checked with cvc5 and z3 4.8.12); the induction composing the per-step lemmas is stated, not mechanised.",
         ref="DESIGN.md section 5 C08", technique="SMT proofs (z3 bit-vectors) of inductive step lemmas on the fold-extracted real loop body + bounded symbolic execution of parse()"),
+    "C09": dict(
+        text="Bounded symbolic execution of the real constructor with the predicated _getsatcellmaps: satellite and signal masks are written as sums of one-hot "
+             "terms over symbolic witness positions (so ALL C(64,k) x C(32,g) placements are covered at once), cell mask and remaining payload free. z3 proves "
+             "NSat/NSig/NCell and every PRN_/CELLPRN_/CELLSIG_ label equal to the 'i-th set bit' specification with pinned PRN numbering and RINEX tables, incl. the "
+             "not-available marker for reserved IDs; two-message histories (same masks, other constellation) are checked the same way.",
+        note="Trusted: CPython, z3, pinned tables spec/msm.json (RTCM 10403.3; unpinned BeiDou ranges listed), predication transform (validated by concrete witnesses with "
+             "awkward masks replayed on the unmodified code). Shapes up to 2x2 quick / 3x3 thorough with symbolic positions.",
+        ref="DESIGN.md section 5 C09", technique=TECH),
+    "C16": dict(
+        text="Relational bounded symbolic execution: the same symbolic MSM payload (mask positions symbolic) is parsed with option 2, 1, 2 again, a free integer option, "
+             "True and 0 inside one path; attribute terms must coincide except CELLSIG_*, a signal position must carry one label per option, absolute labels are checked "
+             "in that parse order, non-MSM messages and the reader pass-through must not depend on the option.",
+        note="Trusted: CPython, z3, predication transform; shapes up to 2x2.",
+        ref="DESIGN.md section 5 C16", technique=TECH),
+    "C18": dict(
+        text="Bounded symbolic execution of parse_msm / parse_4076_201 on symbolically decoded messages: returned metadata and array entries must be the very attribute "
+             "terms of the message, in index order (incl. 153-coefficient layers with three-digit indices and histories starting with empty-mask messages); on all 4096 "
+             "message numbers and 256 sub-types of 4076 the helpers return None and never raise.",
+        note="Trusted: CPython, z3; epoch field per constellation pinned; mask shapes up to 2x2.",
+        ref="DESIGN.md section 5 C18", technique=TECH),
 }
 
 NA_REASON = "check under construction in this build round (see DESIGN.md); will be claimed once its harness lands"
